@@ -1,7 +1,7 @@
 """C17 (partial): R-IDX, R-CAP, R-EOF, R-REC, R-DIV, R-NULL, T-TBL, T-DISP over everything reachable from naken_util."""
 from nk import report
 from nk.interval import Analyzer
-from rules import idx, term, div, tbl, null, disp
+from rules import prog as rprog, wrap, idx, term, div, tbl, null, disp
 from . import common
 
 EXPLANATION = (
@@ -9,7 +9,8 @@ EXPLANATION = (
     'reachable from naken_util\'s main(): fileio readers, FileIo, UtilContext, common/, imports, Linker, every '
     'disassembler and simulator entry: R-IDX (fixed-array subscripts), R-CAP, R-EOF (reader loops leave at end of '
     'input), R-REC, R-DIV, R-NULL, T-TBL (table sentinels), T-DISP (every accepted command / detected file type is '
-    'dispatched). Not decided: file-supplied counts and offsets used as pointer offsets into the file image '
+    'dispatched). R-PROG: every range loop of the range printers and the page walk of UtilContext::disasm advance on every path. '
+    'WRAP-LOOP: a 32-bit address counter compared with an inclusive upper bound cannot wrap (the 56 range printers are known findings). Not decided: file-supplied counts and offsets used as pointer offsets into the file image '
     '(R-TAINT not armed), heap use.')
 
 
@@ -24,7 +25,9 @@ def run(tier, t0):
     dctx = div.Ctx(prog, an)
     results = [idx.idx(prog, scope, 150, an), idx.cap_callers(prog, scope, 5, cg), term.eof(prog, scope, 20),
                term.rec(prog, cg, [common.UTIL_MAIN], member_scope=lambda f: f.file.startswith(('fileio/', 'common/', 'disasm/', 'main/naken_util')) or f.file in ('core/UtilContext.cpp', 'core/Linker.cpp', 'core/imports_obj.cpp', 'core/imports_ar.cpp')), div.div(prog, scope, 40, ctx=dctx), null.null_a(prog, scope, 20),
-               tbl.ttbl(prog), disp.disp(prog), idx.ptr_into_array(prog, scope, an)]
+               tbl.ttbl(prog), disp.disp(prog), idx.ptr_into_array(prog, scope, an),
+               rprog.run(prog, cg),
+               wrap.wrap_loops(prog, lambda f: f.file.startswith(('disasm/', 'core/UtilContext', 'main/naken_util', 'fileio/')), an, 40, strict_fns=common.range_printers())]
     return report.finish('C17', tier, results, EXPLANATION,
                          ['the invariants listed for not-decided subscripts were read from the code and replayed under ASan '
                           'during triage'], common.TRUSTED, t0)
